@@ -6,6 +6,7 @@ CONSTANTS
   Types = {}
   RasDims <- RDimsA
   ScaleSets <- ScalesAll
+  Grows = {}
   MaxObjs = 6
   MaxOps = 4
   Mix = TRUE
